@@ -42,8 +42,10 @@ func init() {
 			}
 			m, _ := v.Replay.(map[string]interface{})
 			mark := fmt.Sprint(m["mark"])
-			hung := strings.Contains(v.Sig, "out of memory") || strings.Contains(v.Sig, "cannot allocate memory") ||
-				strings.Contains(v.Sig, "cpu-budget-exceeded")
+			hung := false
+			for _, k := range []string{"out of memory", "cannot allocate memory", "cannot map pages", "failed to reserve", "cpu-budget-exceeded"} {
+				hung = hung || strings.Contains(v.Sig, k)
+			}
 			if strings.HasPrefix(mark, "dumbh ") && hung {
 				v.What = "FormatBytes does not terminate (output grows until the address-space or CPU budget is hit): " + v.What
 				m["crash_sig"] = v.Sig
